@@ -28,12 +28,12 @@ TIMEOUT = {"quick": 600, "thorough": 3000}
 def _spec_for(i: int, seed: int) -> dict:
     rng = random.Random(seed * 104729 + i)
     m = i % 10
-    if m < 6:
+    if m < 5:
         sp = specs.random_dag(rng, max_stages=7)
         sp["name"] = f"rand{seed}_{i}"
         return sp
     if m < 8:
-        return specs.or_split_variant(rng)
+        return specs.or_split_variant(rng) if m < 7 else specs.first_of_failing(rng)
     lib = [specs.first_of(3), specs.quorum(3, 2), specs.quorum(4, 3), specs.jump_loop(2, 3), specs.jump_side_branch(2), specs.forward_jump(), specs.racing_failure(), specs.synthetic(), specs.failed_continue()]
     return lib[(i // 10) % len(lib)]
 
